@@ -42,7 +42,8 @@ def run(run):
             for oname in rng.sample(list(orders), 2 if quick else 4):
                 o = orders[oname]
                 for late in (False, True):
-                    for chi in (1, 2, 4, 16, HUGE):
+                    # 2..12 covers the (multi)bond sizes of these networks: chi EQUAL to the largest bond truncates nothing
+                    for chi in (1, 2, 4, 16, HUGE, rng.randint(2, 12), rng.choice([3, 6, 8, 9, 12, 18, 27])):
                         d = {"net": net.to_json(), "ssa": [list(p) for p in ssa], "order": oname, "late": late, "chi": chi}
                         run.count()
                         run.nontrivial((net.eq(), str(net.dims), str(ssa), oname, late, chi))
@@ -66,6 +67,8 @@ def run(run):
         run.tlc(res)
     run.cov["traces_validated_against_impl"] += len(cases)
     for case, d, v in zip(cases, descs, verdicts):
+        if v[0] == "spec-inconsistent":
+            raise tla.MachineryError(f"Compressed.tla: NothingTruncated holds but the capped machine differs from the uncapped one: {d}")
         if v[0] == "network-not-ordinary":
             raise tla.MachineryError(f"generator produced a non-ordinary network {d}")
         if v[0] != "ok":
@@ -76,7 +79,8 @@ def run(run):
                         "chi": d["chi"], "reported": case["rep"], "verdict": "ok"})
     finders(run, ct, rng, quick)
     run.cov["rule"] = ("ordinary networks (graphs, hyper-edges, output indices; 2-7 tensors) x all trees for N<=4 / random x traversal orders "
-                       "(incl. surface_order) x compress_late x chi in {1,2,4,16,huge}; compressed pathfinders on connected ordinary networks; "
+                       "(incl. surface_order) x compress_late x chi in {1,2,4,16,huge, two drawn from 2..27}; flops judged whenever chi is at least "
+                       "every bond of the uncapped run (decided by the spec); compressed pathfinders on connected ordinary networks; "
                        "distinct by (network, tree, order, late, chi)")
 
 
